@@ -258,7 +258,7 @@ def remove_poly_exact(V, level, deg):
 
 # ---------------------------------------------------------------------------------------------- running_average
 @unit('C17', 'running_average', functions=[S_ + 'Signal.running_average'], cases=[dict(dtype='float'), dict(dtype='int')],
-      modes=('bounded',), sizes=dict(n=[2, 3, 5], w=[1, 2, 3, 4]), thorough_sizes=dict(n=[2, 3, 4, 5, 6, 7], w=[1, 2, 3, 4, 5, 6]))
+      modes=('bounded',), sizes=dict(n=[2, 3, 5], w=[1, 2, 3, 4, 5, 6, 9]), thorough_sizes=dict(n=[2, 3, 4, 5, 6, 7], w=[1, 2, 3, 4, 5, 6, 7, 8, 11, 25]))
 def running_average(V, dtype):
     st = {}
 
@@ -266,8 +266,6 @@ def running_average(V, dtype):
         CS.install_cache_summaries(V)
         o, a, n, dt = _obj(V, 'Signal', dtype=dtype)
         w = V.size('w', 1)
-        if w > n:
-            raise Skip()
         st.update(o=o, a=a, n=n, w=w)
         return ((o, w), {})
     for out in V.run(S_ + 'Signal.running_average', setup):
